@@ -706,7 +706,7 @@ impl Entry<EntryIncremental, EntryNew> {
                 },
                 State::Live {
                     at: at_right,
-                    changes: _changes_right,
+                    changes: changes_right,
                 },
             ) => {
                 debug_assert!(at_left != at_right);
@@ -752,10 +752,24 @@ impl Entry<EntryIncremental, EntryNew> {
                         trace!("Origin process conflict entry");
                         // We are making a new entry!
 
+                        // The conflict entry is a NEW entry of this server. Every attribute it
+                        // inherits must be recorded as changed (and the entry as created) by this
+                        // transaction: if it kept the loser's old change ids, incremental
+                        // replication would only ship the attributes stamped below (uuid, class,
+                        // source_uuid) to replicas that already hold the loser's change range,
+                        // and they would end with a conflict entry that lost all its content.
+                        let cnf_ecstate = EntryChangeState::build(State::Live {
+                            at: cid.clone(),
+                            changes: changes_right
+                                .keys()
+                                .map(|attr| (attr.clone(), cid.clone()))
+                                .collect(),
+                        });
+
                         let mut cnf_ent = Entry {
                             valid: EntryInvalid {
                                 cid: cid.clone(),
-                                ecstate: db_cs.clone(),
+                                ecstate: cnf_ecstate,
                             },
                             state: EntryNew,
                             attrs: db_ent.attrs.clone(),
